@@ -52,6 +52,10 @@ FAMILIES = {
               "weights": {"enq": 6, "consume": 5, "finish": 0, "sleep": 1}}),
     "fifoprio": ([("q1", None, "NORMAL")], ["ta"], {"fifo_only": True, "max_ids": 12, "nops": 40, "prios": [1, 5, 9],
                  "weights": {"enq": 6, "consume": 5, "finish": 0, "sleep": 1}}),
+    # a consume() call that is already waiting when its consumer is paused, arrivals meanwhile, unpause
+    "pause": ([("q1", None, "NORMAL")], ["ta"], {"fifo_only": True, "max_ids": 14, "nops": 40, "sleeps_ms": [1, 150],
+              "weights": {"enq": 4, "consume": 1, "consume_bg": 6, "join": 4, "pause": 3, "ack": 2, "finish": 0, "sleep": 1, "reject": 0, "nack": 0, "requeue": 0}}),
+    "pause-directed": "directed",
     # returned messages that carry a (passed) due time, followed by new arrivals
     "fifo-ret": ([("q1", None, "NORMAL")], ["ta"], {"delays_ms": [None, None, -5, -5, 1], "ttls_ms": [None], "max_ids": 12, "nops": 45, "sleeps_ms": [1, 5, 1100],
                  "weights": {"enq": 5, "consume": 5, "reject": 4, "ack": 1, "nack": 0, "requeue": 1, "finish": 0, "sleep": 2}}),
@@ -67,12 +71,31 @@ FAMILIES = {
     "delay": ([("q1", None, "NORMAL")], ["ta"], {"delays_ms": [1, 250, 999, 1000, 1500, None], "ttls_ms": [None, None, 3000],
               "sleeps_ms": [1, 249, 250, 251, 998, 1000, 1002], "weights": {"consume": 6}}),
 }
+def directed_pause():
+    """a consume() call that is waiting on an empty queue (or behind foreign topics) when its consumer is paused; k messages
+    arrive; unpause after 0 / a few / many polling ticks; everything is collected: the arrival order is the delivery order"""
+    out = []
+    all_w = {"enq": 1, "consume": 1, "consume_bg": 1, "join": 1, "pause": 1, "ack": 1, "finish": 1, "sleep": 1}
+    for k in (1, 2, 3):
+        for wait in (0, 3, 250):
+            for early_pause in (False, True):       # pause before / after the consume() call started
+                for foreign in (False, True):
+                    ops = [("start", 0)]
+                    ops += [("pause", 0), ("consume_bg", 0)] if early_pause else [("consume_bg", 0), ("pause", 0)]
+                    ops += ["enq"] * k + [("sleep", wait), ("unpause", 0), ("join", 0)]
+                    ops += [("consume", 0), ("ack", 0, 0)] * (k + 1)
+                    out.append(dict(seed=7000 + len(out), consumers=[("q1", ["ta"] if foreign else None, "NORMAL")],
+                                    topics=["ta", "tb"] if foreign else ["ta"], fifo_only=True, script=ops, weights=all_w,
+                                    consume_tmo_ms=[400], max_ids=12))
+    return out
+
+
 PER_PROPERTY = {
     "C01": ["n", "n+x", "n+d", "n+n", "topics", "2q", "same-due", "flush"],
     "C05": ["delay", "latency", "n+d", "same-due"],
     "C12": ["ttl", "n+x", "n"],
     "C14": ["n+n", "topics", "n+x", "2q"],
-    "C15": ["fifo1", "fifoprio", "fifo-ret", "starve", "n"],
+    "C15": ["fifo1", "fifoprio", "fifo-ret", "starve", "pause", "pause-directed", "n"],
     "C07": ["n", "n+x", "n+d"],
 }
 
@@ -132,6 +155,9 @@ def run(pid: str, tier: str, seed: int, *, replay: dict | None = None) -> int:
         scs = []
         for be in BACKENDS:
             for fam in PER_PROPERTY[pid]:
+                if FAMILIES[fam] == "directed":
+                    scs += [dict(sc, backend=be) for sc in directed_pause()]
+                    continue
                 consumers, topics, extra = FAMILIES[fam]
                 for s in range(nseeds if be == "inmem" else max(3, nseeds // 2)):
                     sc = dict(seed=seed * 1000 + s, consumers=consumers, topics=topics, backend=be, **extra)
